@@ -80,7 +80,7 @@ theorem desc_keeps (o : Opts) (m : Message) (hm : MesgScope m) (hnum : m.num = m
   refine ⟨by rw [hnum, t1]; simp, ?_, ?_⟩
   · -- the name is not empty: a known field 3 is there
     simp only [descScopeB, Bool.and_eq_true, Bool.not_eq_true'] at hd
-    have hne := hd.1.1.1.1.1.1
+    have hne := hd.1.1.1.1
     have hf3 : ∃ f, (knownFieldsOnly m).fields.reverse.find? (hasNum fnFieldDescName) = some f := by
       cases hf : (knownFieldsOnly m).fields.reverse.find? (hasNum fnFieldDescName) with
       | some f => exact ⟨f, rfl⟩
@@ -143,7 +143,7 @@ theorem noSubNames_append {A B : List Desc} (hA : NoSubNames A) (hB : ∀ d ∈ 
   · exact hA d h
   · have := hB d h
     simp only [descScopeB, Bool.and_eq_true, Bool.not_eq_true'] at this
-    exact this.1.1.1.1.2
+    exact this.1.1.2
 
 /-- **every line of a file within scope reads back**, whatever was described in earlier files (`P`) -/
 theorem chainOK_file (o : Opts) (P : List Desc) (hP : NoSubNames P) (file : List Message) (hf : FileScope file) :
